@@ -287,6 +287,7 @@ def exec_c06(cfg, devs):
                 if ex.env.links and not ex.frozen:
                     ex.env.links[-1].fail_from_driver_thread()
             s.spawn(None, fault_body, name='env-driver-fault')
+            s.sleep(1e-6, 'let.env.park')          # the link can be lost from the first line of the first request on
         # a user stops issuing requests once the library has *told* it that the link is gone (not before: a request can
         # race with the error path)
         cf.disconnected.add_callback(lambda uri: info.__setitem__('told', True))
@@ -745,6 +746,12 @@ def _user2_filter(devs, i, alt, label):
     return i <= devs[0][0] + 25
 
 
+def _linkfault_filter(devs, i, alt, label):
+    if not devs:
+        return _fires(label, alt, 'env.linkfault')
+    return i <= devs[0][0] + 25
+
+
 def _fault_user_filter(devs, i, alt, label):
     if not devs:
         return _fires(label, alt, 'env.linkfault')
@@ -793,6 +800,14 @@ def run(ck):
                        (('r', 0, 0, 21), ('wf', 0, 40, 26)))]
     r5 = explore(ck, exec_c06, two, 1 if ck.quick else 2, child_filter=_user2_filter, max_execs=3000000)
     ck.note('two_users_line_level', r5)
+    # the link is lost at every line of the user's call and of the handlers, and the error path runs to its end before the
+    # interrupted thread goes on (scheduling policy env_first); thorough: plus one more switch within 25 points
+    lf = [{'name': 'linkfault:lines:' + ','.join('%s%d@%d+%d' % o for o in ops), 'ops': ops, 'fault': True, 'lines': True,
+           'policy': 'env_first'}
+          for ops in ((('r', 0, 0, 21), ('r', 0, 40, 21)), (('w', 0, 0, 26), ('w', 0, 40, 26)), (('w', 0, 0, 26), ('r', 0, 0, 26)),
+                      (('r', 0, 0, 21), ('wf', 0, 40, 26)))]
+    r6 = explore(ck, exec_c06, lf, 1 if ck.quick else 2, child_filter=_linkfault_filter, max_execs=3000000)
+    ck.note('link_lost_at_line_level', r6)
     if not ck.quick:
         deep = [c for c in cs if len(c['ops']) >= 2][:6] + [c for c in cs if len(c['ops']) == 1 and c['ops'][0][3] in (21, 26)]
         r2 = explore(ck, exec_c06, [dict(c, name=c['name'] + ':2dev', settle=4.6) for c in deep], 2, max_execs=2000000)
